@@ -75,6 +75,15 @@ fn check_level(chain: &[&CmdS], m: &ArgMatches, has_sub: bool, req: &str, rep: &
     // 4. requirements
     let negated = has_sub && (me.settings.subcommand_negates_reqs || me.settings.args_conflicts_with_subcommands);
     if negated || exclusive_present { return; }
+    // a group entry that is still in the matches although none of its members is (the member was overridden away):
+    // clap's validator treats the group as present (KNOWN_FINDINGS F22)
+    let stale_groups: Vec<&GroupS> = groups.iter().filter(|g| explicit(m, &g.id) && !group_present(g)).collect();
+    let exempt_by_stale_group = |id: &str| -> bool {
+        let mut mine: Vec<String> = vec![id.to_string()];
+        mine.extend(groups_of(id).iter().map(|g| g.id.clone()));
+        let my_conf: Vec<String> = find(id).map(|(a, _)| direct(a)).unwrap_or_default().into_iter().chain(groups.iter().filter(|g| g.id == id).flat_map(|g| g.conflicts.clone())).chain(groups_of(id).iter().flat_map(|g| g.conflicts.clone())).collect();
+        stale_groups.iter().any(|g| my_conf.contains(&g.id) || g.conflicts.iter().any(|c| mine.contains(c)))
+    };
     let exempt = |id: &str| -> bool {
         // a present arg/group that conflicts with `id` or with one of its groups (either direction)
         let mut mine: Vec<String> = vec![id.to_string()];
@@ -88,7 +97,8 @@ fn check_level(chain: &[&CmdS], m: &ArgMatches, has_sub: bool, req: &str, rep: &
     let mut need = |id: &str, why: String, via: bool, rep: &mut Report| {
         if !present(id) && !exempt(id) {
             let inv_global = via || find(id).map(|f| other_level(f)).unwrap_or(false);
-            rep.oracle_fail(if inv_global { "required-missing:global-arg-from-another-level" } else { "required-missing" }, req, &format!("level {}: `{}` is required ({}) but not explicitly present", me.name, id, why));
+            let class = if inv_global { "required-missing:global-arg-from-another-level" } else if exempt_by_stale_group(id) { "required-missing:excused-by-the-stale-group-entry-of-an-overridden-arg" } else { "required-missing" };
+            rep.oracle_fail(class, req, &format!("level {}: `{}` is required ({}) but not explicitly present", me.name, id, why));
         }
     };
     for (a, _) in &args { if a.required { need(&a.id, "required(true)".into(), false, rep); } }
